@@ -184,6 +184,23 @@ contract(f"{DC}::DHTCommunity.unserialize_value", "unserialize_value.signed=>Sig
          covers=["raised is None and result is not None and result[1] is not None", "raised is None and result is None"],
          note="data is reported as signed by a key only if the trailing signature verifies under that key over all preceding bytes")
 
+contract(f"{DC}::DHTCommunity.unserialize_value", "unserialize_value.second-call-is-checked-too",
+         vars={"s1": BYTES_N(16), "s2": BYTES_N(16), "self": DHT, "first": BYTES, "value": BYTES},
+         instances=[{"n_secrets": 1}], call="second(self, first, value)", raises=None,
+         ensures=["result is None or result[1] is None or Sig(result[1], value[:max(len(value) - uf_int('siglen', result[1]), 0)],"
+                  " value[max(len(value) - uf_int('siglen', result[1]), 0):])"],
+         note="history of two calls: whatever was accepted before (any first value), a second value is reported as signed only if ITS "
+              "signature verifies over ITS bytes - a verdict is never carried over from another value")
+
+
+def second(self, first, value):
+    try:
+        self.unserialize_value(first)
+    except Exception:  # noqa: BLE001
+        pass
+    return self.unserialize_value(value)
+
+
 contract(f"{DC}::DHTCommunity.add_value", "add_value.only-unserializable",
          vars={"s1": BYTES_N(16), "s2": BYTES_N(16), "self": DHT, "key": BYTES_N(20), "value": BYTES,
                "storage": EFFECT("storage", put={})},
